@@ -1,0 +1,21 @@
+// Verification hooks: observation only. Built only with -tags verif.
+
+//go:build verif
+
+package webstack
+
+import (
+	"sync/atomic"
+
+	"github.com/maruel/panicparse/v2/stack"
+)
+
+// VerifSnapshotHook, when set, observes the raw dump each snapshot() call
+// captured together with what was parsed from it.
+var VerifSnapshotHook atomic.Pointer[func(raw []byte, s *stack.Snapshot, err error)]
+
+func verifSnapshot(raw []byte, s *stack.Snapshot, err error) {
+	if h := VerifSnapshotHook.Load(); h != nil {
+		(*h)(raw, s, err)
+	}
+}
